@@ -207,45 +207,43 @@ fn first_use_values(ty: &Ty) -> Vec<Val> {
     refmodel::values::values_small(ty, &refmodel::values::Params { leaf_k: 2, seq_len: 1, elem_k: 1, cap: 4, rec_depth: 1 }).into_iter().take(2).collect()
 }
 
-/// one encode + decode of a table row, judged against the model (not against an earlier run)
-fn first_use_check(e: &bridge::Entry, v: &Val) -> Option<String> {
+/// one encode + decode of a table row, classified against the model: "ok" or a coarse class of
+/// what is wrong (no bytes in it: hash containers iterate in a per-process order)
+fn first_use_class(e: &bridge::Entry, v: &Val) -> String {
     let r = &(e.enc)(v, &[Sink::ToByteVec])[0];
     let model = ref_encode(&e.ty, &r.actual);
     match (&r.out, &model) {
         (Out::Ok(b), Ok(mb)) => {
             if *b != mb.b {
-                return Some(format!("encode gives {} where the format prescribes {}", hex(b), hex(&mb.b)));
+                return "encoded bytes differ from the format".into();
             }
             let d = (e.dec)(b);
             match &d.out {
-                Out::Ok(back) if canon(&e.ty, back) == canon(&e.ty, &with_transient_defaults(&e.ty, &r.actual)) => None,
-                o => Some(format!("decode of {} gives {}", hex(b), format!("{o:?}").chars().take(160).collect::<String>())),
+                Out::Ok(back) if canon(&e.ty, back) == canon(&e.ty, &with_transient_defaults(&e.ty, &r.actual)) => "ok".into(),
+                Out::Ok(_) => "decodes to another value".into(),
+                o => format!("decode gives {}", o.class()),
             }
         }
-        (Out::Panic(p), _) => Some(format!("encode panics: {p}")),
-        (Out::Err(_), Err(_)) => None,
+        (Out::Panic(_), _) => "encode panics".into(),
+        (Out::Err(_), Err(_)) => "ok".into(),
         // values the format cannot express have no prescribed outcome
-        (_, Err(EncErr::Unrepresentable(_))) => None,
-        (o, m) => Some(format!("encode gives {} where the model gives {}", o.class(), if m.is_ok() { "Ok" } else { "Err" })),
+        (o, Err(EncErr::Unrepresentable(_))) => format!("unrepresentable:{}", if o.is_ok() { "Ok" } else { "Err" }),
+        (o, m) => format!("encode gives {} where the model gives {}", o.class(), if m.is_ok() { "Ok" } else { "Err" }),
     }
 }
 
-/// child: in this fresh process use table row `idx` first, then every row of the table once;
-/// prints one line per row whose result is not what the format prescribes
+/// child: in this fresh process use table row `idx` first (none if out of range), then every row
+/// of the table once; prints one line per row: its name and what its calls did
 pub fn first_child(idx: usize) -> i32 {
     let u = common::load();
-    let first = &u.entries[idx];
-    for v in first_use_values(&first.ty) {
-        if let Some(m) = first_use_check(first, &v) {
-            println!("MISMATCH\t{}\t{}", first.name, m);
+    if let Some(first) = u.entries.get(idx) {
+        for v in first_use_values(&first.ty) {
+            let _ = first_use_class(first, &v);
         }
     }
     for e in &u.entries {
-        for v in first_use_values(&e.ty) {
-            if let Some(m) = first_use_check(e, &v) {
-                println!("MISMATCH\t{}\t{}", e.name, m);
-            }
-        }
+        let classes: Vec<String> = first_use_values(&e.ty).iter().map(|v| first_use_class(e, v)).collect();
+        println!("ROW\t{}\t{}", e.name, classes.join(" | "));
     }
     println!("ROWS\t{}", u.entries.len());
     0
@@ -386,62 +384,77 @@ pub fn run(tier: &str, only: Option<String>) -> i32 {
     }
 
     // (f) first-use order: for every row A of the table, a fresh process that uses A first and then
-    // every row once; whatever a first use leaves behind (statics, thread-locals, caches) must not
-    // change what any later call returns. Covers all ordered pairs (first-used type, later type).
+    // every row once, compared row by row with a fresh process that uses every row once without A
+    // first. Whatever a first use leaves behind (statics, thread-locals, caches) must not change
+    // what any later call does. Differential on purpose: a row that misbehaves whatever came before
+    // it is another property's business, not an isolation failure.
     let first_rows: Vec<usize> = (0..u.entries.len())
         .filter(|i| match &run.only {
             None => true,
             Some(k) => *k == format!("first:{}", u.entries[*i].name),
         })
         .collect();
-    {
+    if !first_rows.is_empty() {
         let total_rows = u.entries.len();
-        let st = par_items(&first_rows, Some(bridge::rt::hang_limit()), &|_| {}, &|i: &usize, st: &mut Stats| {
-            let name = &u.entries[*i].name;
+        let run_child = |arg: String| -> Option<Vec<String>> {
             let mut ch = std::process::Command::new(&me)
                 .arg("C18-first")
-                .arg(i.to_string())
+                .arg(arg)
                 .stdout(std::process::Stdio::piped())
                 .stderr(std::process::Stdio::null())
                 .spawn()
                 .expect("spawn");
-            let out = {
-                // read while waiting (the pipe of a chatty child must not fill up)
-                use std::io::Read;
-                let mut so = ch.stdout.take().expect("stdout");
-                let h = std::thread::spawn(move || {
-                    let mut s = String::new();
-                    let _ = so.read_to_string(&mut s);
-                    s
-                });
-                if bridge::rt::wait_with_timeout(&mut ch, std::time::Duration::from_secs(300)).is_none() {
+            // read while waiting (the pipe of a chatty child must not fill up)
+            use std::io::Read;
+            let mut so = ch.stdout.take().expect("stdout");
+            let h = std::thread::spawn(move || {
+                let mut s = String::new();
+                let _ = so.read_to_string(&mut s);
+                s
+            });
+            bridge::rt::wait_with_timeout(&mut ch, std::time::Duration::from_secs(300))?;
+            let out = h.join().unwrap_or_default();
+            if !out.lines().any(|l| l.starts_with("ROWS\t")) {
+                return Some(vec![format!("DIED\t{}", out.chars().rev().take(200).collect::<String>().chars().rev().collect::<String>())]);
+            }
+            Some(out.lines().filter(|l| l.starts_with("ROW\t")).map(|l| l.to_string()).collect())
+        };
+        let Some(baseline) = run_child(usize::MAX.to_string()) else {
+            eprintln!("MACHINERY: the first-use baseline process did not finish");
+            return 2;
+        };
+        if baseline.len() != total_rows {
+            // the table cannot be walked even once in a fresh process: nothing to compare with
+            run.stats.violate("C18 first-use-order: a fresh process that uses every type once dies".into(), "first:baseline".into(), json!({"output": baseline.first()}));
+        } else {
+            let st = par_items(&first_rows, Some(bridge::rt::hang_limit()), &|_| {}, &|i: &usize, st: &mut Stats| {
+                let name = &u.entries[*i].name;
+                let Some(rows) = run_child(i.to_string()) else {
                     st.violate(format!("C18 first-use-order process does not terminate first={name}"), format!("first:{name}"), json!({}));
                     return;
+                };
+                st.states += 1;
+                st.transitions += total_rows as u64;
+                st.validated += total_rows as u64;
+                if rows.len() != total_rows {
+                    st.violate("C18 first-use-order: the process dies when a type is used before the others".into(), format!("first:{name}"), json!({"first_used_type": name, "output": rows.first()}));
+                    return;
                 }
-                h.join().unwrap_or_default()
-            };
-            st.states += 1;
-            st.transitions += total_rows as u64;
-            st.validated += total_rows as u64;
-            let complete = out.lines().any(|l| l.starts_with("ROWS\t"));
-            let mism: Vec<&str> = out.lines().filter(|l| l.starts_with("MISMATCH\t")).collect();
-            if !complete {
-                st.violate(format!("C18 first-use-order process died first={name}"), format!("first:{name}"), json!({"output_tail": out.chars().rev().take(300).collect::<String>().chars().rev().collect::<String>()}));
-                return;
-            }
-            if let Some(l) = mism.first() {
-                let p: Vec<&str> = l.split('\t').collect();
-                st.violate(
-                    format!("C18 first-use-order: a later call on {} returns something else than the format prescribes", p.get(1).unwrap_or(&"?")),
-                    format!("first:{name}"),
-                    json!({"first_used_type": name, "later_type": p.get(1), "problem": p.get(2), "rows_affected_in_this_process": mism.len()}),
-                );
-                return;
-            }
-            st.bump("first-use-order:all-later-calls-as-prescribed");
-            st.nontrivial += 1;
-        });
-        run.stats.merge(st);
+                let differing: Vec<(&String, &String)> = rows.iter().zip(&baseline).filter(|(a, b)| a != b).collect();
+                if let Some((got, base)) = differing.first() {
+                    let later = got.split('\t').nth(1).unwrap_or("?");
+                    st.violate(
+                        format!("C18 first-use-order: calls on {later} behave differently after another type was used first"),
+                        format!("first:{name}"),
+                        json!({"first_used_type": name, "later_type": later, "after_that_first_use": got.split('\t').nth(2), "without_it": base.split('\t').nth(2), "rows_affected_in_this_process": differing.len()}),
+                    );
+                    return;
+                }
+                st.bump("first-use-order:later-calls-unchanged");
+                st.nontrivial += 1;
+            });
+            run.stats.merge(st);
+        }
     }
 
     // (d) supplementary, SAMPLED (not exhaustive): real threads, free-running, first use of every
@@ -599,7 +612,7 @@ pub fn run(tier: &str, only: Option<String>) -> i32 {
         run.caps_hit.push("Miri data-race run not performed (VRACE_DIR not provided)".into());
     }
     run.stats.add("call_sequences_in_fresh_processes", seqs.len() as u64);
-    run.rule = format!("(a) every interleaving (shuttle DFS, no preemption bound) of 2{} threads each doing one of 7 calls, under three hook filters (string/ref tables; record open/finish and context creation; field writes/reads), metadata statics initialised under contention in every schedule; (b) all {} sequences of depth <= {} over 11 calls (one fails half-way through a record, one fills the reference table, one cites a reference that was never introduced), each in a fresh process; (c) every value of the universe encoded twice from the same instance; (f) for every row of the type table a fresh process that uses that row first and then every row once (all ordered pairs of first-used and later type). Oracle: every call returns what it returns alone and what the reference model prescribes. Non-trivial = schedules with >= 2 threads, sequences with >= 2 calls.", if thorough { " and 3" } else { "" }, seqs.len(), depth);
+    run.rule = format!("(a) every interleaving (shuttle DFS, no preemption bound) of 2{} threads each doing one of 7 calls, under three hook filters (string/ref tables; record open/finish and context creation; field writes/reads), metadata statics initialised under contention in every schedule; (b) all {} sequences of depth <= {} over 11 calls (one fails half-way through a record, one fills the reference table, one cites a reference that was never introduced), each in a fresh process; (c) every value of the universe encoded twice from the same instance; (f) for every row of the type table a fresh process that uses that row first and then every row once, compared row by row with a fresh process that uses every row once (all ordered pairs of first-used and later type). Oracle: every call returns what it returns alone and what the reference model prescribes. Non-trivial = schedules with >= 2 threads, sequences with >= 2 calls.", if thorough { " and 3" } else { "" }, seqs.len(), depth);
     run.bounds = json!({"threads": if thorough { 3 } else { 2 }, "sequence_depth": depth});
     run.extra.insert("supplementary_sampled_part".into(), json!("(d) 200 / 2000 fresh processes, 8 free-running OS threads each released by a barrier; this part SAMPLES schedules of the operating system and is not part of the exhaustive claim; (e) 4 / 48 Miri runs (one deterministic schedule per seed) of 3 / 4 real threads doing first-use and steady-state calls, with Miri's data-race detector as the monitor for unsynchronised accesses that the cooperative scheduler of (a) cannot see - also sampled"));
     run.assumptions = vec![
